@@ -706,7 +706,7 @@ func (r Wrapper) handleAccessTokenRequest(ctx context.Context, request HandleTok
 
 	// Parse optional DPoP header
 	httpRequest := ctx.Value(httpRequestContextKey{}).(*http.Request)
-	dpopProof, err := dpopFromRequest(*httpRequest)
+	dpopProof, err := r.dpopFromTokenRequest(*httpRequest)
 	if err != nil {
 		return nil, err
 	}
